@@ -194,7 +194,7 @@ def shuffle_modes(ctx, n=None):
         # the nearest declaration wins in every process)
         w = worlds.gen_world(rng, n_layers=rng.choice([2, 3, 4]), tests_per_layer=(2, 5),
                              kinds=["pass", "pass", "pass", "fail", "error", "skipBody"], p_fault=0.0, p_write=0.0,
-                             nested=(i % 2 == 0 or i % 4 == 1))
+                             nested=(i % 4 in (0, 1)))
         if i % 3 == 1:
             # at least two unit tests, and a layer whose dotted name sorts after the unit layer's (the shuffle draws
             # one stream over the layers in name order)
@@ -207,6 +207,20 @@ def shuffle_modes(ctx, n=None):
             non_unit = [l for l in w["layers"] if l["kind"] != "unit"]
             if non_unit:
                 non_unit[-1]["module"] = "zzl"
+        if i % 4 == 1:
+            # instance layers named by strings with dots and regex metacharacters: a layer subprocess runs the layer it
+            # was started for, not every layer its name matches as a pattern
+            inst = [l for l in w["layers"] if l["kind"] == "instance"]
+            for l, nm in zip(inst, ["Q+", "B(h)", "X.Y", "X_Y", "X-Y"]):
+                l["name"] = nm
+            if not inst:
+                # (no instance layer in this world: make the last class layer without derived layers one)
+                used_as_base = {b for l in w["layers"] for b in l["bases"]}
+                for k_ in range(len(w["layers"]) - 1, 0, -1):
+                    if w["layers"][k_]["kind"] == "class" and k_ not in used_as_base:
+                        w["layers"][k_]["kind"] = "instance"
+                        w["layers"][k_]["name"] = "Q+"
+                        break
         if i % 3 == 0:
             # a layer with a failure *and* an error: the child's report lists both, in that order
             kinds_ = ["fail", "error", "pass", "error", "fail"]
@@ -266,7 +280,7 @@ def shuffle_modes(ctx, n=None):
             loud = [t for t in w["tests"] if not t.get("doctest")]
             if loud:
                 rng.choice(loud)["body"]["fd2"] = ("library warning: something is deprecated " + "x" * 60 + "\n") * 3000
-        seed = rng.randint(0, 10 ** 6) if i % 2 == 1 else None      # (every other world runs unshuffled)
+        seed = rng.randint(0, 10 ** 6) if i % 4 != 0 else None      # (every fourth world runs unshuffled)
         wo = {}
         if i % 4 == 2:
             # started through a wrapper script (options from sys.argv); tests that empty sys.argv in place run in the
